@@ -62,7 +62,18 @@ class Ctx:
         if os.path.exists(src_sum):
             shutil.copyfile(src_sum, dst_sum)
         out = os.path.join(self.tmp, name)
-        cmd = ["go", "build", "-tags", tags, "-o", out, pkg]
+        cmd = ["go", "build", "-tags", tags, "-o", out]
+        if REPO != "/repo":
+            # another copy of the library (a scratch worktree with a seeded change): same harness, other replace target
+            alt = os.path.join(self.tmp, "alt.mod")
+            with open(os.path.join(HARNESS, "go.mod")) as f:
+                mod = f.read().replace("=> /repo", "=> " + REPO)
+            with open(alt, "w") as f:
+                f.write(mod)
+            if os.path.exists(src_sum):
+                shutil.copyfile(src_sum, os.path.join(self.tmp, "alt.sum"))
+            cmd += ["-modfile", alt]
+        cmd.append(pkg)
         p = subprocess.run(cmd, cwd=HARNESS, env=self.env(), capture_output=True, text=True)
         if p.returncode != 0:
             raise Inconclusive("go build failed (does /repo compile with -tags %s?):\n%s" % (tags, p.stderr[-4000:]))
@@ -127,7 +138,7 @@ class Ctx:
         self.violations.append(dict(clause=clause, what=what, replay=replay, sig=sig or {}, data=data))
 
     def save_replay(self, name, obj):
-        d = os.path.join(VERIF, "out", "replays", self.prop)
+        d = os.path.join(os.environ.get("VERIF_OUT", os.path.join(VERIF, "out")), "replays", self.prop)
         os.makedirs(d, exist_ok=True)
         path = os.path.join(d, name)
         with open(path, "w") as f:
@@ -182,8 +193,9 @@ class Ctx:
         ev = dict(property_id=self.prop, tier=self.tier, seed=self.seed, level=self.level, coverage=cov,
                   assumptions=self.assumptions, wall_s=round(time.time() - self.t0, 2), violations=nviol,
                   notes=self.notes)
-        os.makedirs(os.path.join(VERIF, "evidence"), exist_ok=True)
-        path = os.path.join(VERIF, "evidence", self.prop + ".json")
+        evdir = os.environ.get("VERIF_EVIDENCE", os.path.join(VERIF, "evidence"))
+        os.makedirs(evdir, exist_ok=True)
+        path = os.path.join(evdir, self.prop + ".json")
         tmp = path + ".tmp%d" % os.getpid()
         with open(tmp, "w") as f:
             json.dump(ev, f, indent=1, default=str)
